@@ -12,6 +12,8 @@ from pymemcache.client.retrying import RetryingClient
 
 PROPERTY = "C16"
 LEVEL = "exploration"
+# parts repeated in a child interpreter started with -O and with warnings turned into errors (vlib/runner.py, MODES)
+MODE_PARTS = {"OW": ['grid', 'sequences', 'life-cycle']}
 RULE = ("case = (shared configuration {key_prefix bytes/str, default_noreply, encoding, allow_unicode_keys, serde in "
         "none/json/pickle/compressed, connect_timeout, timeout, no_delay, socket_keepalive, TLS}, server state in "
         "hit/numeric-hit/miss/a hit whose value is falsy (b'' without a serializer, None as the serializer stores it with one), one key-addressed call: required arguments positionally, optional ones (expire, noreply, "
